@@ -39,6 +39,7 @@ type Summary struct {
 	Ambiguous   int               `json:"ambiguous"`
 	Samples     []json.RawMessage `json:"samples"`
 	Violations  []ViolationRec    `json:"violations"`
+	KnownSeen   map[string]int    `json:"known_seen"`
 	Witness     map[string]string `json:"witness"` // key -> "fails" | "holds"
 	Infra       string            `json:"infra,omitempty"`
 	WallS       float64           `json:"wall_s"`
@@ -57,6 +58,7 @@ type WorkerArgs struct {
 	ReplayDir string
 	Tree      string
 	MaxViol   int
+	KnownKeys map[string]bool // open known findings: counted, never minimised, never end the batch
 	ExecWrap  func(p Prop, c *Case) *Outcome // engine-specific wrapper (E3 bubble); nil = p.Exec
 }
 
@@ -89,7 +91,7 @@ func RunWorker(a WorkerArgs) int {
 	}
 	start := time.Now()
 	sum := &Summary{Prop: a.Prop, Tier: a.Tier, Seed: a.Seed, Worker: a.Worker, Workers: a.Workers,
-		Probes: map[string]int{}, Faults: map[string]int{}, Witness: map[string]string{}, Desc: p.Describe()}
+		Probes: map[string]int{}, Faults: map[string]int{}, Witness: map[string]string{}, KnownSeen: map[string]int{}, Desc: p.Describe()}
 	// watchdog: a single Exec must not hang
 	go func() {
 		for {
@@ -115,7 +117,10 @@ func RunWorker(a WorkerArgs) int {
 				break
 			}
 			if out.V != nil {
-				k := classify(p, wc, out.V)
+				k := out.V.Key
+				if k == "" {
+					k = classify(p, wc, out.V)
+				}
 				if k == key {
 					sum.Witness[key] = "fails"
 				} else {
@@ -166,10 +171,19 @@ func RunWorker(a WorkerArgs) int {
 			scheds[sim.HashAdd(oh, out.SchedHash)] = struct{}{}
 		}
 		if out.V != nil {
+			if out.V.Key != "" && a.KnownKeys[out.V.Key] {
+				sum.KnownSeen[out.V.Key]++
+				continue
+			}
 			rec, infra := handleViolation(p, c, out, a)
 			if infra != "" {
 				sum.Infra = infra
 				break
+			}
+			if rec.Key != "" && a.KnownKeys[rec.Key] {
+				sum.KnownSeen[rec.Key]++
+				_ = os.Remove(rec.Replay)
+				continue
 			}
 			sum.Violations = append(sum.Violations, *rec)
 			if len(sum.Violations) >= a.MaxViol {
@@ -343,7 +357,9 @@ func handleViolation(p Prop, c *Case, out *Outcome, a WorkerArgs) (*ViolationRec
 	}
 	final := best.Clone()
 	final.Violation = bestOut.V
-	final.Violation.Key = classify(p, final, bestOut.V)
+	if final.Violation.Key == "" {
+		final.Violation.Key = classify(p, final, bestOut.V)
+	}
 	final.Minimised = true
 	path := filepath.Join(a.ReplayDir, fmt.Sprintf("%s-%d-%d.json", a.Prop, a.Seed, c.Run))
 	b, _ := json.MarshalIndent(final, "", " ")
